@@ -1,6 +1,7 @@
 """Routing-table world: pattern catalogue with a by-construction match relation,
 endpoint factory with outcome kinds, and the sequential dispatch model
 (written from the property text of C06; shared by C06 and C11)."""
+import re
 from clastic import Response
 from clastic.errors import NotFound, Forbidden, Conflict, ServiceUnavailable, BadRequest
 
@@ -13,7 +14,10 @@ def segs(path):
 
 
 def _isint(s):
-    return s.isdigit()
+    # an optional sign directly followed by ASCII digits that Python converts (its limit: 4300 digits); a blank after the
+    # sign, other digits, underscores are not integers
+    m = re.fullmatch(r'[+-]?([0-9]+)', s)
+    return bool(m) and len(m.group(1)) <= 4300
 
 
 # pattern -> matcher over the list of path segments (pattern is relative, prefix handled separately)
@@ -33,7 +37,9 @@ CAT = {
 # in strict mode only patterns whose every match has a single spelling are used
 STRICT_OK = ['/a', '/a/', '/a/b', '/<x>', '/<x>/', '/a/<n:int>', '/<x>/<y>', '/a/<rest+>', '/c/<n:int>/']
 PATHS = ['/%3Cx%3E', '/a/%3Cn:int%3E', '/%3Crest*%3E', '/b/%3Cx%3F%3E', '/c/%3Cn:int%3E/', '/%3Cx%3E/%3Cy%3E', '/a%0A', '/a/b%0A', '/q%0A', '/a/7%0A', '/%0A', '/a%0A/', '/a?v=2', '/a/b?v=2', '/q?v=2', '/a?v=1', '/', '/a', '/a/', '/a/b', '/a/b/', '/a/7', '/b', '/b/q', '/q', '/q/', '/a/b/c', '//a', '/a//b', '/a/7/',
-         '/c/5', '/c/5/', '/c/x/', '/b/', '/a/07']
+         '/c/5', '/c/5/', '/c/x/', '/b/', '/a/07',
+         # segments that look like integers at first sight
+         '/a/+7', '/a/-7', '/a/+%207', '/a/-%207', '/c/+%205/', '/a/' + '9' * 4301, '/a/1_0', '/c/+5/']
 METHODS = ['GET', 'HEAD', 'POST', 'PUT', 'DELETE', 'get', 'post', 'FOO', 'OPTIONS', 'PATCH', 'TRACE', 'CONNECT']
 METHOD_SETS = [None, None, [], ['OPTIONS'], ['PATCH'], ['TRACE'], ['CONNECT'], ['PUT'], ['GET'], ['POST'], ['get', 'PUT'], ['DELETE', 'POST'], ['HEAD'], ['GET', 'POST', 'PUT']]
 OUTCOMES = ['qdep', 'qdep', 'ok', 'ok', 'ok', 'brk404', 'brk503', 'brk409_ret', 'brk400_ret', 'nb403_raise', 'nb404_ret', 'nb404_raise', 'nb403_ret', 'boom']
